@@ -173,6 +173,13 @@ fn c15_sync(rec: &mut Rec, tier: u8, seed: u64, idx: usize) {
                 rec.status = "inconclusive:iteration-cap".into();
                 return;
             }
+            Some(_) if with_yields => {
+                // with yields the unbounded exploration is not complete (open C18 finding): a failure (deadlock) that only a
+                // bounded run reaches says nothing about the bound; the paths seen so far are still judged
+                let rep = pathmon::check(&r.paths, Some(n), false);
+                add_path_viol(rec, &rep, &format!("bound {} (failing run): ", n));
+                break;
+            }
             Some(k) => {
                 rec.v("unexpected_panic", format!("{} @ {}", k.short(), r.panic_file), format!("bound {}: {}", n, r.panic.clone().unwrap_or_default()));
                 break;
@@ -399,7 +406,7 @@ fn c15(p: &Prog, rec: &mut Rec, tier: u8) {
         add_path_viol(rec, &rep, &format!("bound {}: ", n));
         // (ii) from the client-boundary log: a switch away from a thread that still has operations
         // left (litmus operations never block) is a preemption; lower bound on (i)
-        if !p.has_await() {
+        if !p.has_await() && !p.staged() {
             let lens: Vec<usize> = (0..p.threads.len()).map(|t| p.threads[t].len() + if t == 0 { p.pre.len() } else { 0 }).collect();
             for (i, order) in r.order_seq.iter().enumerate() {
                 let mut done = vec![0usize; p.threads.len()];
